@@ -1,4 +1,6 @@
 import PdtVerif.Lemmas.ErrorRate
+import PdtVerif.Lemmas.ErrorRateOracle
+import PdtVerif.Lemmas.ErrorRateBatch
 /-!
 # C02 — error rate counts the edits of some minimum-cost alignment
 
@@ -244,6 +246,155 @@ theorem C02_mer_reduce (l : List (List Rat)) :
     reduce .none l = .inl l ∧ reduce .sum l = .inr l.flatten.sum
       ∧ reduce .mean l = .inr (l.flatten.sum / (l.flatten.length : Rat)) :=
   ⟨rfl, rfl, rfl⟩
+
+/-! ### The polynomial oracle is exact (improvement round) -/
+
+/-- **The set-carrying DP `optCounts` is exact**: its cost is the weighted Levenshtein distance
+and its count list has exactly the members of the brute-force enumeration `optimalEditCounts`
+(which `C02_oracle` identifies with the edit counts of minimum-cost alignments). Every cost
+triple, every pair of strings — so the oracle the harness uses for sequences too long to
+enumerate is itself proved. -/
+theorem C02_optCounts_exact (c : Costs) (r h : List α) :
+    (optCounts c r h).1 = lev c r h ∧
+      ∀ m, m ∈ (optCounts c r h).2 ↔ m ∈ optimalEditCounts c r h := by
+  obtain ⟨e, hm⟩ := optCounts_ok c r h
+  exact ⟨e, fun m => by rw [hm, mem_optimalEditCounts]⟩
+
+/-- … hence the bounds the harness reads from it are those of the brute force. -/
+theorem C02_optCounts_min_max (c : Costs) (r h : List α) :
+    (optCounts c r h).2.min? = minEdits c r h ∧ (optCounts c r h).2.max? = maxEdits c r h :=
+  ⟨min?_congr (C02_optCounts_exact c r h).2, max?_congr (C02_optCounts_exact c r h).2⟩
+
+/-- The per-prefix oracle: `|h| + 1` entries, entry `k` exact for the hypothesis prefix
+`h.take k`. -/
+theorem C02_optCounts_prefixes (c : Costs) (r h : List α) :
+    (optCountsPrefixes c r h).length = h.length + 1 ∧
+    ∀ k, k ≤ h.length → ∃ cell, (optCountsPrefixes c r h)[k]? = some cell ∧
+      cell.1 = lev c r (h.take k) ∧
+      (∀ m, m ∈ cell.2 ↔ m ∈ optimalEditCounts c r (h.take k)) ∧
+      cell.2.min? = minEdits c r (h.take k) ∧ cell.2.max? = maxEdits c r (h.take k) := by
+  obtain ⟨hlen, hk⟩ := optCountsPrefixes_ok c r h
+  refine ⟨hlen, fun k hkl => ?_⟩
+  have hlt : k < (optCountsPrefixes c r h).length := by omega
+  refine ⟨(optCountsPrefixes c r h)[k], List.getElem?_eq_getElem hlt, ?_⟩
+  obtain ⟨e, hm⟩ := hk k _ (List.getElem?_eq_getElem hlt)
+  have hmem : ∀ m, m ∈ ((optCountsPrefixes c r h)[k]).2 ↔ m ∈ optimalEditCounts c r (h.take k) :=
+    fun m => by rw [hm, mem_optimalEditCounts]
+  exact ⟨e, hmem, min?_congr hmem, max?_congr hmem⟩
+
+/-- `C02_bounds` against the polynomial oracle (what the harness checks for long sequences). -/
+theorem C02_bounds_fast_oracle (cfg : Config α) (hn : cfg.norm = false) (ref hyp : List α) (lo hi : Nat)
+    (hlo : (optCounts cfg.costs (cut cfg.eos cfg.includeEos ref) (cut cfg.eos cfg.includeEos hyp)).2.min? = some lo)
+    (hhi : (optCounts cfg.costs (cut cfg.eos cfg.includeEos ref) (cut cfg.eos cfg.includeEos hyp)).2.max? = some hi) :
+    (lo : Rat) ≤ errorRateCol cfg ref hyp ∧ errorRateCol cfg ref hyp ≤ (hi : Rat) := by
+  rw [(C02_optCounts_min_max _ _ _).1] at hlo
+  rw [(C02_optCounts_min_max _ _ _).2] at hhi
+  exact C02_bounds_oracle cfg hn ref hyp lo hi hlo hhi
+
+/-- one substitution (1 edit) ties with insertion + deletion (2 edits) when `ins + del = sub` -/
+example : optCounts (α := Int) ⟨1, 1, 2⟩ [0] [1] = (2, [1, 2]) := by decide +kernel
+example : (optCountsPrefixes (α := Int) ⟨1, 2, 3⟩ [0, 1] [1, 0, 1]) = [(4, [2]), (2, [1]), (3, [2]), (1, [1])] := by
+  decide +kernel
+
+/-! ### Batches: independent columns, `batch_first` = transposition (improvement round) -/
+
+/-- **A batch is its columns.** `error_rate` on a batch of `N` pairs returns `N` values and value
+`n` is the per-pair function of sequence `n` of the two tensors (`column`: row `n` when
+`batch_first`, column `n` otherwise) — nothing else of the batch enters. -/
+theorem C02_batch_columns (cfg : Config α) (bf : Bool) (N : Nat) (ref hyp : List (List α)) (d : α)
+    (hr : bf = true → ref.length = N) (hh : bf = true → hyp.length = N) :
+    (errorRateBatch cfg bf N ref hyp d).length = N ∧
+    ∀ n, n < N → (errorRateBatch cfg bf N ref hyp d)[n]?
+      = some (errorRateCol cfg (column bf ref n d) (column bf hyp n d)) :=
+  ⟨errorRateBatch_length cfg bf N ref hyp d hr hh,
+   fun n hn => errorRateBatch_getElem? cfg bf N ref hyp d hr hh n hn⟩
+
+/-- **Per-column independence**: two batches — of any sizes, in any layouts, with anything in
+their other columns, with any padded lengths elsewhere — that hold the same pair of sequences at
+positions `n` and `n'` report the same value there. -/
+theorem C02_batch_independent (cfg : Config α) (bf bf' : Bool) (N N' : Nat)
+    (ref hyp ref' hyp' : List (List α)) (d : α)
+    (hr : bf = true → ref.length = N) (hh : bf = true → hyp.length = N)
+    (hr' : bf' = true → ref'.length = N') (hh' : bf' = true → hyp'.length = N')
+    (n n' : Nat) (hn : n < N) (hn' : n' < N')
+    (er : column bf ref n d = column bf' ref' n' d) (eh : column bf hyp n d = column bf' hyp' n' d) :
+    (errorRateBatch cfg bf N ref hyp d)[n]? = (errorRateBatch cfg bf' N' ref' hyp' d)[n']? := by
+  rw [errorRateBatch_getElem? cfg bf N ref hyp d hr hh n hn,
+    errorRateBatch_getElem? cfg bf' N' ref' hyp' d hr' hh' n' hn', er, eh]
+
+/-- **`batch_first` is a transposition**: the batch-first call on the transposed tensors gives
+the sequence-first result, and `transpose` is the index swap `t'[n][l] = t[l][n]`. -/
+theorem C02_batch_first_transpose (cfg : Config α) (N : Nat) (ref hyp : List (List α)) (d : α) :
+    errorRateBatch cfg true N (transpose N ref d) (transpose N hyp d) d
+      = errorRateBatch cfg false N ref hyp d ∧
+    ∀ (t : List (List α)), (∀ row ∈ t, row.length = N) → ∀ n l : Nat, n < N →
+      ((transpose N t d)[n]?).bind (fun seq => seq[l]?) = (t[l]?).bind (fun row => row[n]?) :=
+  ⟨rfl, fun t hw n l hn => transpose_getElem? N t d hw n l hn⟩
+
+/-- **The per-prefix table of a batch**: entry (element `n`, prefix `k`) — `out[n][k]` when
+`batch_first`, `out[k][n]` otherwise — is entry `k` of the per-sequence table (`C02_prefix`) of
+sequence `n`. -/
+theorem C02_prefix_batch (cfg : Config α) (bf : Bool) (N : Nat) (ref hyp : List (List α)) (d : α)
+    (hr : bf = true → ref.length = N) (hh : bf = true → hyp.length = N)
+    (hq : bf = true → ∀ row ∈ hyp, row.length = seqDim true hyp)
+    (n k : Nat) (hn : n < N) (hk : k < prefixRows (seqDim bf hyp) cfg.excludeLast) :
+    entry bf (prefixErrorRatesBatch cfg bf N ref hyp d) n k
+      = (prefixErrorRatesCol cfg (column bf ref n d) (column bf hyp n d))[k]? :=
+  prefixErrorRatesBatch_entry cfg bf N ref hyp d hr hh hq n k hn hk
+
+/-- … so the batch-first table of the transposed tensors is the transposed sequence-first table. -/
+theorem C02_prefix_batch_first_transpose (cfg : Config α) (N : Nat) (ref hyp : List (List α)) (d : α)
+    (n k : Nat) (hn : n < N) (hk : k < prefixRows hyp.length cfg.excludeLast) :
+    entry true (prefixErrorRatesBatch cfg true N (transpose N ref d) (transpose N hyp d) d) n k
+      = entry false (prefixErrorRatesBatch cfg false N ref hyp d) n k := by
+  have hdim : seqDim true (transpose N hyp d) = hyp.length := by
+    obtain ⟨N', rfl⟩ : ∃ N', N = N' + 1 := ⟨N - 1, by omega⟩
+    simp [seqDim, transpose, List.range_succ_eq_map]
+  have hq : ∀ row ∈ transpose N hyp d, row.length = seqDim true (transpose N hyp d) := by
+    intro row hrow
+    rw [hdim]
+    obtain ⟨n', _, rfl⟩ := List.mem_map.1 hrow
+    simp
+  rw [prefixErrorRatesBatch_entry cfg true N _ _ d (fun _ => by simp [transpose])
+      (fun _ => by simp [transpose]) (fun _ => hq) n k hn (by rw [hdim]; exact hk),
+    prefixErrorRatesBatch_entry cfg false N ref hyp d (fun h => by cases h) (fun h => by cases h)
+      (fun h => by cases h) n k hn (by simpa [seqDim] using hk),
+    column_transpose N ref d n hn, column_transpose N hyp d n hn]
+
+/-- a ragged batch in both layouts: columns `([1,2] , [2,1])` and `([3,0], [3,0])`, eos `0` -/
+example : errorRateBatch (α := Int) ⟨some 0, false, false, ⟨1, 1, 2⟩, false, -100⟩ false 2
+    [[1, 3], [2, 0]] [[2, 3], [1, 0]] 0 = [2, 0] := by decide +kernel
+example : errorRateBatch (α := Int) ⟨some 0, false, false, ⟨1, 1, 2⟩, false, -100⟩ true 2
+    [[1, 2], [3, 0]] [[2, 1], [3, 0]] 0 = [2, 0] := by decide +kernel
+example : transpose (α := Int) 2 [[1, 3], [2, 0]] 0 = [[1, 2], [3, 0]] := by decide
+example : prefixErrorRatesBatch (α := Int) ⟨some 0, false, false, ⟨1, 1, 1⟩, false, -7⟩ false 2
+    [[1, 3], [2, 0]] [[2, 3], [1, 0]] 0 = [[2, 1], [1, 0], [2, -7]] := by decide +kernel
+example : prefixErrorRatesBatch (α := Int) ⟨some 0, false, false, ⟨1, 1, 1⟩, false, -7⟩ true 2
+    [[1, 2], [3, 0]] [[2, 1], [3, 0]] 0 = [[2, 1, 2], [1, 0, -7]] := by decide +kernel
+
+/-! ### Argument validation (improvement round) -/
+
+/-- **`error_rate` / `prefix_error_rates` accept exactly** two 2-D tensors with the same batch
+size (everything else is the `RuntimeError` of the code, `none` in the model). -/
+theorem C02_pair_shapes (bf : Bool) (ref hyp : List Nat) (N R H : Nat) :
+    checkPairShapes bf ref hyp = some (N, R, H) ↔
+      ref = (if bf then [N, R] else [R, N]) ∧ hyp = (if bf then [N, H] else [H, N]) :=
+  checkPairShapes_iff bf ref hyp N R H
+
+/-- **`minimum_error_rate_loss` accepts exactly** `(N, M)` log-probabilities, an `(H, N, M)`
+hypothesis tensor (`(N, M, H)` when `batch_first`), an `(R, N)` or `(R, N, M)` reference
+(`(N, R)`, `(N, M, R)`), at least two samples and one of the three reductions. -/
+theorem C02_mer_shapes (bf : Bool) (lp ref hyp : List Nat) (red : String) (N M R H : Nat) :
+    checkMerShapes bf lp ref hyp red = some (N, M, R, H) ↔
+      lp = [N, M] ∧ hyp = (if bf then [N, M, H] else [H, N, M]) ∧
+      (ref = (if bf then [N, R] else [R, N]) ∨ ref = (if bf then [N, M, R] else [R, N, M])) ∧
+      2 ≤ M ∧ (red = "mean" ∨ red = "sum" ∨ red = "none") :=
+  checkMerShapes_iff bf lp ref hyp red N M R H
+
+example : checkMerShapes false [2, 3] [4, 2] [5, 2, 3] "sum" = some (2, 3, 4, 5) := by decide
+example : checkMerShapes true [2, 3] [2, 3, 4] [2, 3, 5] "none" = some (2, 3, 4, 5) := by decide
+example : checkMerShapes false [2, 1] [4, 2] [5, 2, 1] "sum" = none := by decide
+example : checkPairShapes true [2, 4] [3, 5] = none := by decide
 
 /-! ### Non-vacuity and concrete instances -/
 
